@@ -485,3 +485,9 @@ mod tests {
         );
     }
 }
+
+// Verification hook (guard: cfg(kani), set by `cargo kani` only).
+#[cfg(kani)]
+mod verif_kani {
+    include!(concat!(env!("VERIF_KANI_DIR"), "/truc_simple.rs"));
+}
